@@ -387,7 +387,7 @@ def result_method_sites(ctx, scope=None):
             ctx.violation(key, fn.loc(bi), 'Result<_, crate error>::%s discards the error' % c.name)
 
 
-@rule('ERR-SWALLOW', ['C05', 'C04'], configs=('def',), floor=15, thorough_configs=('nostd-xzlzip', 'std-noopt'))
+@rule('ERR-SWALLOW', ['C05'], configs=('def',), floor=15, thorough_configs=('std-noopt',))
 def err_swallow(ctx):
     """No crate error is converted into data or success: from the Err edge of every branch on a
     Result<_, crate error>, the payload reaches the function's Err return, an error field/store,
@@ -396,3 +396,32 @@ def err_swallow(ctx):
     result_method_sites(ctx)
     if n == 0:
         ctx.anchor_missing('branch on Result<_, crate error>')
+
+
+CONTAINER_READER_ADTS = ('XZReader', 'LZIPReader', 'LZIPReaderMT', 'StreamHeader', 'BlockHeader', 'Index', 'StreamFooter',
+                         'LZIPHeader', 'LZIPTrailer', 'LZMA2Reader', 'LZMAReader', 'ChecksumCalculator')
+
+
+@rule('ERR-SWALLOW-DEC', ['C04'], configs=('def',), floor=4)
+def err_swallow_dec(ctx):
+    """Container readers (XZ, LZIP and the LZMA/LZMA2 readers below them): a header/trailer/check
+    failure is never converted into data, an empty result or a clean end of stream."""
+    scope = lambda f: (f.self_adt and last_seg(f.self_adt) in CONTAINER_READER_ADTS) or f.file in ('src/lzip.rs', 'src/xz.rs')
+    n = run_err_swallow(ctx, scope)
+    result_method_sites(ctx, scope)
+    if n == 0:
+        ctx.anchor_missing('branch on Result<_, crate error> in the container readers')
+
+
+@rule('ERR-SWALLOW-MT', ['C08', 'C09'], configs=('def',), floor=9)
+def err_swallow_mt(ctx):
+    """Multi-threaded pipelines: every error a coordinator or worker obtains (inner reader, sink,
+    codec) reaches the shared error store or the caller."""
+    from rules.concurrency import mt_types, worker_fns
+    F = ctx.facts
+    mts = {p for p, _, _, _ in mt_types(F)}
+    ws = {f.path for f, _, _ in worker_fns(F)}
+    scope = lambda f: f.self_adt in mts or f.path in ws
+    n = run_err_swallow(ctx, scope)
+    if n == 0:
+        ctx.anchor_missing('branch on Result<_, crate error> in the MT pipelines')
